@@ -31,7 +31,7 @@ type Case struct {
 func genCase(t *rapid.T) Case {
 	var c Case
 	c.GPUType = rapid.SampledFrom([]string{"r9nano", "r9nano", "mi300a"}).Draw(t, "gputype")
-	c.Prog = kgen.GenProgram(t, kgen.GenOpts{MaxItems: 1536, MaxOps: 24, LDS: true, Partial: true})
+	c.Prog = kgen.GenProgram(t, kgen.GenOpts{MaxItems: 1536, MaxOps: 24, LDS: true, Partial: true, SubDword: true})
 	if rapid.Bool().Draw(t, "knobs") {
 		c.CUPerSA = rapid.SampledFrom([]int{0, 1, 2, 4}).Draw(t, "cupersa")
 		c.SAs = rapid.SampledFrom([]int{0, 1, 2, 4, 16}).Draw(t, "sas")
